@@ -65,11 +65,11 @@ def main():
         'engines': [
             {'name': 'vx+verus', 'path': 'lib/vx.py, contracts/*.rs.tpl', 'serves_properties': [p for p in P.PROPERTIES if any(u['kind'] == 'verus' for u in P.PROPERTIES[p]['units']('quick'))], 'kind_free_text': 'mechanical extraction of real functions + Verus (unbounded deductive proof)'},
             {'name': 'kani', 'path': 'kani/*, gk/', 'serves_properties': [p for p in P.PROPERTIES if any(u['kind'] in ('kani', 'gk') for u in P.PROPERTIES[p]['units']('quick'))], 'kind_free_text': 'Kani/CBMC harnesses stating function contracts on the real crates and on real generated modules'},
-            {'name': 'bx', 'path': 'bx/', 'serves_properties': [p for p in P.PROPERTIES if any(u['kind'] == 'bx' for u in P.PROPERTIES[p]['units']('quick'))], 'kind_free_text': 'bounded-exhaustive native execution of the strategy contract (stand-in for simple(), counterexample finder, replayer)'},
+            {'name': 'bx', 'path': 'bx/', 'serves_properties': [p for p in P.PROPERTIES if any(u['kind'].startswith('bx') or u['kind'] == 'gkn' for u in P.PROPERTIES[p]['units']('quick'))], 'kind_free_text': 'bounded-exhaustive native execution, labelled bounded: stand-ins for simple(), builder histories, the convert helper, determinism, type names, failing converters (panic clauses), injected clone panics; counterexample finder, replayer'},
         ],
         'checks': checks,
         'not_applicable': na,
-        'notes': 'hooks: two cfg(kani) include! modules (add-only) and one entry added to the existing check-cfg list of truc/Cargo.toml (hence add_only=false). exit 0 pass / exit 1 VIOLATION / exit 2 inconclusive (lost anchor, unsupported construct, resource limit: never an alarm). Known findings: known_findings.json.',
+        'notes': 'hooks: three cfg(kani) include! modules and one cfg(kani) cover marker in try_convert_vec_in_place (add-only), plus the entry cfg(kani) appended to the existing check-cfg lists of truc/Cargo.toml and truc_runtime/Cargo.toml (hence add_only=false). Bounded native stand-ins (bx, bx_vec, bx_types, gk_native) are labelled in every evidence file and never counted as discharged obligations. exit 0 pass / exit 1 VIOLATION / exit 2 inconclusive (lost anchor, unsupported construct, resource limit: never an alarm). Known findings: known_findings.json.',
     }
     json.dump(m, open(os.path.join(P.VERIF, 'MANIFEST.json'), 'w'), indent=1)
     print('claimed:', [c['property_id'] for c in checks])
